@@ -6,7 +6,10 @@ import itertools
 P = 512  # ticks per poll period (0.5 s at 1024 ticks/s)
 
 PAYLOADS = [{"v": 1}, {"tools": []}, {"a": {"b": None, "c": [1, None, "x y"]}}, {"n": 18446744073709551615},
-            [1, 2], "text", 7, True, {"": {}}]
+            [1, 2], "text", 7, True, {"": {}},
+            # long strings inside lists / objects (what a tools/call result looks like)
+            {"content": [{"type": "text", "text": "long-" + "y" * 600}, {"type": "text", "text": "z" * 257}], "isError": False},
+            ["w" * 300, {"k": ["v" * 1000]}]]
 
 
 def sym_event(sym, rng=None, k=0):
@@ -113,7 +116,7 @@ def exhaustive(alphabet, max_len, Ds, ids, ties=("events", "timers", "io"), prog
                         cid = ids[k % len(ids)]
                         case = {
                             "id": cid, "method": "tools/list", "params": [None, {}, {"a": {"b": None}}][k % 3],
-                            "D": D, "tie": tie, "progress": progress,
+                            "D": D, "tie": tie, "progress": progress, "debug": k % 4 == 0,
                             "ev": [[a, sym_event(s, k=i + 1)] for i, (a, s) in enumerate(zip(pat(D, n), word))],
                         }
                         yield place(case)
@@ -150,6 +153,8 @@ def seeded(rng, alphabet, weights=None, max_len=12, ids=None, progress_p=0.5, ca
         case["pre"] = True
     elif r < cancel_p + 0.1:
         case["hasToken"] = True
+    if rng.random() < 0.25:
+        case["debug"] = True  # the host application runs with logging at DEBUG
     if rng.random() < 0.15:
         # the peer closes its end / stops reading after the request has been written
         case["writer"] = rng.choice(["closed", "blocked"])
@@ -165,7 +170,7 @@ def shrink_candidates(case):
         c = dict(case)
         c["ev"] = ev[:i] + ev[i + 1:]
         yield c
-    for key in ("cbRaises", "hasToken", "params", "writer"):
+    for key in ("cbRaises", "hasToken", "params", "writer", "debug"):
         if case.get(key):
             c = dict(case)
             c.pop(key)
